@@ -14,7 +14,7 @@ func init() {
 		run: runC18,
 		explanation: "Decided (structural, for every interleaving of AddRow calls, both writers): " +
 			"C18.locked — in everything reachable from AddRow, every access to the writer's fields (row counter, schema, bitmap map, temp transaction) and to the schema's and columns' maps happens with the writer's mutex held exclusively on every path (lock-state dataflow; callee context = meet over call sites; deferred unlock and deferred increment closure replayed in LIFO order, so swapping the two defers or narrowing the critical section is reported); " +
-			"C18.rowid — the id a call adds to every bitmap / encodes into every temp key and the id it returns are the same SSA value, the load of the row counter taken under the lock; the only stores to the counter anywhere are `counter + 1`, and every successful return of AddRow has passed exactly one such increment. " +
+			"C18.rowid — the id a call adds to every bitmap / encodes into every temp key (directly or in a helper it calls, whose parameter is bound to the call's argument) and the id it returns are the same SSA value, the load of the row counter taken under the lock; the only stores to the counter anywhere are `counter + 1`, and every successful return of AddRow has passed exactly one such increment. " +
 			"Hence calls are mutually exclusive, each gets one id, ids are consecutive from 0 and each row's values carry one id. " +
 			"NOT decided: equality of the flushed index with the sequential one (follows from mutual exclusion and commutativity of bitmap Add; not checked as such); Flush concurrent with AddRow (outside the property).",
 		assumptions: []string{"sync.Mutex semantics", "bbolt write transaction used by one goroutine at a time is safe", "roaring Add is deterministic"},
@@ -215,31 +215,28 @@ func rowidRule(c *Ctx, rule, wname string, addRow *ssa.Function, typ *types.Name
 	if nRet == 0 {
 		c.r.bad(rule, wname+": return", "AddRow has no successful return", []string{site})
 	}
-	// (3) every use of a row id in the row's data is the id: bitmap Add / temp-key encoding of a uint32
+	// (3) every use of a row id in the row's data is the id: bitmap Add / temp-key encoding of a uint32. The recording may
+	// sit in a helper AddRow calls (tempKey(valueIdx, rowID), addTo(bitmaps, valueIdx, rowID)): a helper's parameter is
+	// bound to the argument of the call in AddRow's frame, so the question stays "is it the id read from the counter";
+	// anything else the helper records (id+1, a constant, its own read of the counter) is not that value and is reported.
 	nUse := 0
-	allInstrs(addRow, func(i ssa.Instruction) {
-		cc := callCommon(i)
-		if cc == nil {
-			return
-		}
-		name := calleeName(cc)
-		var arg ssa.Value
-		switch name {
-		case "(*github.com/RoaringBitmap/roaring.Bitmap).Add", "(*github.com/RoaringBitmap/roaring.Bitmap).CheckedAdd":
-			arg = cc.Args[1]
-		case "(encoding/binary.bigEndian).PutUint32", "(encoding/binary.littleEndian).PutUint32":
-			arg = cc.Args[len(cc.Args)-1]
-		case "(*github.com/RoaringBitmap/roaring.Bitmap).AddInt", "(*github.com/RoaringBitmap/roaring.Bitmap).AddMany", "(*github.com/RoaringBitmap/roaring.Bitmap).AddRange":
-			nUse++
-			c.r.undecided(rule, fmt.Sprintf("%s: use#%d", wname, nUse), "row id added through "+shortName(name)+", a form the rule does not follow", c.w.ipos(i))
-			return
-		default:
-			return
-		}
+	for _, u := range rowIDUses(c, addRow, 0) {
 		nUse++
-		c.r.check(isID(arg), rule, fmt.Sprintf("%s: use#%d %s", wname, nUse, shortName(name)), "uses the id read under the lock",
-			"a value of the row is recorded under an id that is not the one read from the counter (and returned)", c.w.ipos(i))
-	})
+		via := ""
+		if u.via != "" {
+			via = " via " + u.via
+		}
+		if u.unfollowed {
+			c.r.undecided(rule, fmt.Sprintf("%s: use#%d", wname, nUse), "row id added through "+shortName(u.name)+via+", a form the rule does not follow", c.w.ipos(u.at))
+			continue
+		}
+		sites := []string{c.w.ipos(u.at)}
+		if u.site != u.at {
+			sites = append(sites, c.w.ipos(u.site))
+		}
+		c.r.check(isID(u.val), rule, fmt.Sprintf("%s: use#%d %s", wname, nUse, shortName(u.name)), "uses the id read under the lock"+via,
+			"a value of the row is recorded under an id that is not the one read from the counter (and returned)"+via, sites...)
+	}
 	if nUse == 0 {
 		c.r.bad(rule, wname+": use", "AddRow never records the row id with the row's values", []string{site})
 	}
@@ -330,6 +327,64 @@ func rowidRule(c *Ctx, rule, wname string, addRow *ssa.Function, typ *types.Name
 			c.r.bad(rule, wname+": order", "the row counter is incremented before the id is read", []string{c.w.ipos(x)})
 		}
 	}
+}
+
+// rowIDUse: a place where fn records a row id together with a row's data. val is the recorded id as a value of fn's
+// frame; at is the instruction of fn through which it happens (the recording call itself, or the call of the helper
+// that contains it), site the recording call.
+type rowIDUse struct {
+	at, site   ssa.Instruction
+	name, via  string
+	val        ssa.Value
+	unfollowed bool // AddInt/AddMany/AddRange: forms whose id operand the rule does not interpret
+}
+
+// rowIDUses lists the row-id recordings of fn: roaring Add/CheckedAdd (the added value), binary PutUint32 / AppendUint32
+// (the encoded value: the row-id field of a temp key), and the recordings of module helpers fn calls (two levels), with
+// a helper's parameter replaced by the call's argument. A recorded value that is not a parameter of the helper stays a
+// value of the helper's frame, which can never be the id loaded in AddRow.
+func rowIDUses(c *Ctx, fn *ssa.Function, depth int) []rowIDUse {
+	var out []rowIDUse
+	allInstrs(fn, func(i ssa.Instruction) {
+		cc := callCommon(i)
+		if cc == nil {
+			return
+		}
+		name := calleeName(cc)
+		switch name {
+		case "(*github.com/RoaringBitmap/roaring.Bitmap).Add", "(*github.com/RoaringBitmap/roaring.Bitmap).CheckedAdd":
+			out = append(out, rowIDUse{at: i, site: i, name: name, val: cc.Args[1]})
+			return
+		case "(encoding/binary.bigEndian).PutUint32", "(encoding/binary.littleEndian).PutUint32",
+			"(encoding/binary.bigEndian).AppendUint32", "(encoding/binary.littleEndian).AppendUint32":
+			out = append(out, rowIDUse{at: i, site: i, name: name, val: cc.Args[len(cc.Args)-1]})
+			return
+		case "(*github.com/RoaringBitmap/roaring.Bitmap).AddInt", "(*github.com/RoaringBitmap/roaring.Bitmap).AddMany", "(*github.com/RoaringBitmap/roaring.Bitmap).AddRange":
+			out = append(out, rowIDUse{at: i, site: i, name: name, unfollowed: true})
+			return
+		}
+		h := calleeFunc(cc)
+		if h == nil || h == fn || depth >= 2 || !c.w.inModule(h) || h.Blocks == nil {
+			return
+		}
+		for _, u := range rowIDUses(c, h, depth+1) {
+			u.at = i
+			if u.via == "" {
+				u.via = safeFname(h)
+			} else {
+				u.via = safeFname(h) + " -> " + u.via
+			}
+			if !u.unfollowed {
+				for k, p := range h.Params {
+					if ssa.Value(p) == peelConv(u.val) && k < len(cc.Args) {
+						u.val = cc.Args[k]
+					}
+				}
+			}
+			out = append(out, u)
+		}
+	})
+	return out
 }
 
 // sameFieldBase: two field addresses select the field of the same object (same root after peeling).
